@@ -68,6 +68,7 @@ def cmdTraits (ws : List String) : Option String :=
       if action = "send" ∨ action = "spawn" then pure (if has T .send n then "accept" else "reject E0277")
       else if action = "sync" ∨ action = "share" then pure (if has T .sync n then "accept" else "reject E0277")
       else if action = "clone" then pure (if duplicable n then "accept-or-opaque" else "reject E0599")
+      else if action = "alias" then pure (if holdsMutBorrow n then "reject E0499" else "accept")
       else none
   | ["thr", o, r, c, axis, opat, ipat, _nthreads, _seed] => do
     let o ← parseOrder o; let r ← r.toNat?; let c ← c.toNat?
